@@ -113,4 +113,16 @@ CHECKS['C03'] = dict(
     assumptions=['base names are letters, digits and underscores (as the property states)'],
 )
 
+CHECKS['C05'] = dict(
+    src='checks/c05_archive_faults.cpp',
+    runs=[dict(cfg='asan')],
+    technique='deviation-bounded fault enumeration over reference-encoded archives + explicit-state reachability over all call sequences of each opened archive (differential against a fresh object)',
+    level_text='Seeds: six reference VOL archives (0-3 members, an LZH member, unused slots), three reference CLM archives and four WAV layouts. Level 1: every proper prefix, every integer field x ~45 boundary values (0,1,x+-1,x+-14,13..15,27..29,2^31,2^32-9..2^32-1,file size relatives, with and without the padding-flag bit) and every byte x 4 substitutions; level 2 (thorough): every pair of fields x 10x10 values; coordinated corruptions: index length = 14k+r with enclosing lengths consistent (blocks shifted or not), more valid entries than names, merged names, missing final NUL, block offsets into the header/at EOF-8/EOF-7/EOF, VBLK length != index size, CLM counts running into the data, CLM extents ending at/after EOF. Every file is opened by VolFile/ClmFile under ASan+UBSan (vector annotations on); for every file that opens, the reachable states of the shared file reader (position, stream flags) under the full call alphabet (GetCount, GetName/GetSize/GetCompressionCode/OpenStream+drain/ExtractFile by every index in {0,1,2,count-1,count,count+1,SIZE_MAX}, GetIndex/Contains/ExtractFile/OpenStream by every member name, an absent and an empty name) are explored to a fixpoint and every call in every state must give the observation of the same call on a freshly opened archive; returned member streams must have a recorded length, lie inside the file and deliver exactly those file bytes. Mutated WAVs are offered to ClmFile::CreateArchive alone and next to a valid WAV in both orders: error or an archive that reopens, within the watchdog.',
+    level_note='Trusts ref_vol/ref_clm/ref_wav encoders, g++/ASan/UBSan. Coverage-guided mutation is sampling and is not used. Allocation requests above 64 MiB are answered with bad_alloc by the harness allocator. Either recorded member length (VBLK length or index size) is accepted for a stream.',
+    rule='case = 150 mutants of one seed; states = opened archives + reader states expanded; transitions = constructor calls and archive calls compared',
+    bounds={'quick': 'level 1 + coordinated corruptions on 13 seeds', 'thorough': 'adds level 2 (all field pairs x 10x10 values)'},
+    must_hit={'any': ['open/refused', 'open/accepted', 'calls/returned', 'calls/ordinary-error', 'extent/streams-verified', 'sequences/states-expanded', 'faults/prefixes', 'faults/single-field-or-byte', 'faults/coordinated', 'wav/archive-produced', 'wav/refused']},
+    assumptions=['an archive object is judged against a freshly opened object on the same bytes: behaviour common to both is judged by clauses 1 and 3 only'],
+)
+
 NOT_APPLICABLE = {}
